@@ -1,5 +1,6 @@
 import LeptosModel.Model.Reactive
 import LeptosModel.Model.ReactiveOld
+import LeptosModel.Model.ReactiveSel
 import LeptosModel.Proofs.ReactiveConv
 import LeptosModel.Proofs.ReactiveLog
 import LeptosModel.Proofs.ReactiveWake
@@ -488,5 +489,112 @@ example : ¬ ∃ env', LogConsistent c02Diamond (envOf (run c02Diamond [.idle]))
   rw [ha] at h1
   rw [hb, e12] at h2
   omega
+
+/-! ## Selector with a caller-supplied comparator (`Selector::new_with_fn`)
+
+The selector keeps the previous source value; when the value changes it SCANS every registered key
+and notifies `k` iff `f k next ∨ f k prev`. A reader of `selected(k)` re-reads on notification. The
+statements below are for every comparator `f`, key and value type and every sequence of source
+values. -/
+
+section Selector
+variable {κ α : Type} [DecidableEq α]
+
+/-- the flag a reader of `selected(k)` sees when the selector holds `v` -/
+def selFlag (f : κ → α → Bool) (v : Option α) (k : κ) : Bool :=
+  match v with | some v => f k v | none => false
+
+/-- keys notified by the scan when the value goes from `prev` to `next` -/
+def selNotified (f : κ → α → Bool) (prev : Option α) (next : α) (k : κ) : Bool :=
+  f k next || selFlag f prev k
+
+/-- one source change as seen by a reader of key `k`: (value the selector holds, flag the reader last saw) -/
+def selReaderStep (notified : Option α → α → κ → Bool) (f : κ → α → Bool) (k : κ)
+    (st : Option α × Bool) (v : α) : Option α × Bool :=
+  if st.1 = some v then st
+  else (some v, if notified st.1 v k then f k v else st.2)
+
+omit [DecidableEq α] in
+/-- the scan is complete: a key whose flag differs between the old and the new value is notified -/
+theorem C02_selector_scan_complete (f : κ → α → Bool) (prev : Option α) (next : α) (k : κ)
+    (h : selFlag f prev k ≠ selFlag f (some next) k) : selNotified f prev next k = true := by
+  unfold selNotified
+  cases hp : selFlag f prev k <;> cases hn : f k next <;> simp_all [selFlag]
+
+/-- after ANY sequence of source values every reader of every key holds the flag of the current
+value (it re-read whenever it was notified, and was notified whenever its flag changed) -/
+theorem C02_selector_readers_current (f : κ → α → Bool) (k : κ) (v0 : α) (vs : List α) :
+    let st := vs.foldl (selReaderStep (selNotified f) f k) (some v0, f k v0)
+    st.2 = selFlag f st.1 k ∧ st.1 = some ((v0 :: vs).getLast (by simp)) := by
+  suffices h : ∀ (vs : List α) (v : α) (b : Bool), b = f k v →
+      let st := vs.foldl (selReaderStep (selNotified f) f k) (some v, b)
+      st.2 = selFlag f st.1 k ∧ st.1 = some ((v :: vs).getLast (by simp)) from h vs v0 _ rfl
+  intro vs
+  induction vs with
+  | nil => intro v b hb; simp [selFlag, hb]
+  | cons w ws ih =>
+    intro v b hb
+    simp only [List.foldl_cons]
+    by_cases hw : (some v : Option α) = some w
+    · have : v = w := Option.some.inj hw
+      subst this
+      have := ih v b hb
+      simpa [selReaderStep, List.getLast_cons] using this
+    · have hstep : selReaderStep (selNotified f) f k (some v, b) w =
+          (some w, if selNotified f (some v) w k then f k w else b) := by
+        simp [selReaderStep, hw]
+      rw [hstep]
+      have hb' : (if selNotified f (some v) w k then f k w else b) = f k w := by
+        by_cases hn : selNotified f (some v) w k = true
+        · simp [hn]
+        · have : ¬ (selFlag f (some v) k ≠ selFlag f (some w) k) := fun hne =>
+            hn (C02_selector_scan_complete f (some v) w k hne)
+          simp only [selFlag, ne_eq, Decidable.not_not] at this
+          simp [hn, hb, this]
+      have := ih w _ hb'
+      simpa [List.getLast_cons] using this
+
+/-- the round-5 variant that looks up only the keys EQUAL to the old and the new value -/
+def selNotifiedLookup (f : Nat → Nat → Bool) (prev : Option Nat) (next : Nat) (k : Nat) : Bool :=
+  (prev == some k || next == k) && selNotified f prev next k
+
+/-- the comparator the `selc` op drives: key `k` matches the values `k` and `k + 1` -/
+def selcF (k v : Nat) : Bool := v == k || v == k + 1
+
+/-- … with it the look-up variant leaves a reader stale (key 4 matches 5, the selector moves 0 → 5,
+only the keys 0 and 5 are looked up), while the scan does not -/
+theorem C02_selector_lookup_stale_witness :
+    ([5].foldl (selReaderStep (selNotifiedLookup selcF) selcF 4) (some 0, selcF 4 0)).2 = false ∧
+    selcF 4 5 = true ∧
+    ([5].foldl (selReaderStep (selNotified selcF) selcF 4) (some 0, selcF 4 0)).2 = true := by decide
+
+/-- for equality the two coincide, which is why `Selector::new` cannot tell them apart -/
+theorem C02_selector_lookup_eq_scan_for_equality (prev : Option Nat) (next k : Nat) :
+    selNotifiedLookup (fun k v => v == k) prev next k = selNotified (fun k v => v == k) prev next k := by
+  cases prev <;> simp [selNotifiedLookup, selNotified, selFlag] <;> grind
+
+end Selector
+
+/-- the driver's desugaring of `selc` uses exactly this rule: its flag expression denotes `selcF` … -/
+theorem selcFlag_eval (ρ : Nat → Int) (x : Expr) (j : Nat) :
+    evalPure ρ (selcFlag x j) =
+      if evalPure ρ x = j ∨ evalPure ρ x = j + 1 then 1 else 0 := by
+  simp only [selcFlag, evalPure]
+  by_cases h1 : evalPure ρ x = (j : Int) <;> by_cases h2 : evalPure ρ x = (j : Int) + 1 <;>
+    simp [h1, h2] <;> omega
+
+/-- … and its write guard is "value changed ∧ (f j next ∨ f j prev)" -/
+theorem C02_selc_desugar_guard (ρ : Nat → Int) (e : Expr) (p j : Nat) :
+    (evalPure ρ (.add e (.mulc (-1) (.rd false p))) ≠ 0 ↔ evalPure ρ e ≠ ρ p) ∧
+    (evalPure ρ (.add (selcFlag e j) (selcFlag (.rd false p) j)) ≠ 0 ↔
+      ((evalPure ρ e = j ∨ evalPure ρ e = j + 1) ∨ (ρ p = j ∨ ρ p = j + 1))) := by
+  constructor
+  · simp only [evalPure]; omega
+  · have h1 := selcFlag_eval ρ e j
+    have h2 := selcFlag_eval ρ (.rd false p) j
+    simp only [evalPure] at h1 h2 ⊢
+    rw [h1, h2]
+    by_cases a : (evalPure ρ e = j ∨ evalPure ρ e = j + 1) <;>
+      by_cases b : (ρ p = j ∨ ρ p = j + 1) <;> simp [a, b]
 
 end Leptos.Reactive
